@@ -36,7 +36,7 @@ pub mod iterators;
 use std::vec::Vec;
 
 use crate::core_iterators::*;
-use crate::store::{Index, Position, Store};
+use crate::store::{Hole, Index, Position, Store};
 use crate::TryReserveError;
 use iterators::*;
 
@@ -450,8 +450,10 @@ where
         // add the new element in the qp vector as the last in the heap
         self.store.qp.push(Position(i));
         self.store.heap.push(Index(i));
-        self.bubble_up(Position(i), Index(i));
+        // the element is already in the tables: count it before running
+        // user code (`Ord::cmp`) that may panic
         self.store.size += 1;
+        self.bubble_up(Position(i), Index(i));
         None
     }
 
@@ -757,27 +759,23 @@ where
 
     /// from the leaf go up to root or until an element with priority greater
     /// than the new element is found
-    fn bubble_up(&mut self, mut position: Position, map_position: Index) -> Position {
-        let priority = self.store.map.get_index(map_position.0).unwrap().1;
-        let mut parent_position = Position(0);
-        while if position.0 > 0 {
-            parent_position = parent(position);
-            (unsafe { self.store.get_priority_from_position(parent_position) }) < priority
-        } else {
-            false
-        } {
-            unsafe {
-                let parent_index = *self.store.heap.get_unchecked(parent_position.0);
-                *self.store.heap.get_unchecked_mut(position.0) = parent_index;
-                *self.store.qp.get_unchecked_mut(parent_index.0) = position;
+    fn bubble_up(&mut self, position: Position, map_position: Index) -> Position {
+        let Store { map, heap, qp, .. } = &mut self.store;
+        let map = &*map;
+        let priority = map.get_index(map_position.0).unwrap().1;
+        // the element is written in its final position when `hole` is dropped,
+        // even if a comparison panics
+        let mut hole = Hole::new(heap, qp, position, map_position);
+        while hole.position.0 > 0 {
+            let parent_position = parent(hole.position);
+            let parent_index = unsafe { hole.index_at(parent_position) };
+            if map.get_index(parent_index.0).unwrap().1 < priority {
+                unsafe { hole.move_from(parent_position, parent_index) };
+            } else {
+                break;
             }
-            position = parent_position;
         }
-        unsafe {
-            *self.store.heap.get_unchecked_mut(position.0) = map_position;
-            *self.store.qp.get_unchecked_mut(map_position.0) = position;
-        }
-        position
+        hole.position
     }
 
     /// Internal function that moves a leaf in position `i` to its correct place in the heap
